@@ -94,6 +94,7 @@ package fstxn
 //@   ensures [H5-live] result != nil ==> result.Inum == inum && inum < 32768 && result.Kind != 0 && held == store(old(held), inum, true) && inodeInv(result) && !dirtyinum[inum] @C08
 //@   ensures [H5-free] result == nil ==> held == old(held) @C08 @C03
 //@   assumes [I-live-marked] result != nil ==> abits[theIalloc][inum]
+//@   assumes [I3-live] inum < 32768 && liveinum[inum] ==> result != nil
 //@   ensures opInv(op) && dirtyInv()
 
 //@ specfunc fhIno(fh3 nfstypes.Nfs_fh3) = ite(len(fh3.Data) >= 16, le64(fh3.Data, 0), 0)
